@@ -268,15 +268,28 @@ func (w *World) GenAdmin(r *Rng, kind int, valid bool) *AdminMsg {
 			if r.Chance(1, 8) && !valid {
 				en = st + el*(1<<(20+uint(r.Intn(30)))) - 1
 			}
+			if !valid && r.Chance(1, 2) {
+				// boundary values around the guards on the period length: end = start - 1 (zero blocks), start - 2,
+				// start (one block), start + epochLength - 1 (one epoch), one block short / long of whole epochs
+				en = []int64{st - 1, st - 1, st - 2, st, st + el - 1, st + el - 2, st + el}[r.Intn(7)]
+				if r.Chance(2, 3) { // with a rate that would be accepted
+					raw := r.Rate01()
+					gS, gE = decOf(raw).String(), raw.String()
+				}
+			}
 			if valid {
 				raw := r.Rate01()
 				gS, gE = decOf(raw).String(), raw.String()
 			}
 		}
+		lenShape := ""
+		if en == st-1 {
+			lenShape = ".len0"
+		}
 		m := &clptypes.MsgUpdatePmtpParams{Signer: sg.s, PmtpPeriodGovernanceRate: gS, PmtpPeriodEpochLength: el, PmtpPeriodStartBlock: st, PmtpPeriodEndBlock: en}
 		stored := k.GetPmtpParams(w.ctx).PmtpPeriodGovernanceRate
 		return &AdminMsg{kind: "UpdatePmtpParams", desc: fmt.Sprintf("%s %s %d %d %d %s", sg.enc, gE, el, st, en, d2s(stored)),
-			shape: "gov." + rateShape(gE), vb: m.ValidateBasic,
+			shape: "gov." + rateShape(gE) + lenShape, vb: m.ValidateBasic,
 			run: func(ctx sdk.Context) error { _, err := w.csrv.UpdatePmtpParams(sdk.WrapSDKContext(ctx), m); return err }}
 	case 2: // ModifyLiquidityProtectionRates
 		lpp := k.GetLiquidityProtectionParams(w.ctx)
@@ -604,11 +617,19 @@ func (w *World) Directed(i int) *AdminMsg {
 			RewardPeriodAllocation: &thousand, RewardPeriodDefaultMultiplier: &one, RewardPeriodMod: 1 << 63}}}
 		return &AdminMsg{kind: "AddRewardPeriod", desc: fmt.Sprintf("adm 1 0 %d %d 1000 %d 0 %s 0", h, h+5, uint64(1)<<63, pow18), shape: "mod.2p63", vb: m.ValidateBasic,
 			run: func(ctx sdk.Context) error { _, err := w.csrv.AddRewardPeriod(sdk.WrapSDKContext(ctx), m); return err }}
+	case 13: // a policy of zero blocks: end = start - 1, start in the future, non-zero rate (0 % epochLength == 0, 0 epochs)
+		el, st := int64(2), h+3
+		en := st - 1
+		raw := sdk.MustNewDecFromStr("0.10").BigInt()
+		m := &clptypes.MsgUpdatePmtpParams{Signer: adm, PmtpPeriodGovernanceRate: "0.10", PmtpPeriodEpochLength: el, PmtpPeriodStartBlock: st, PmtpPeriodEndBlock: en}
+		stored := w.app.ClpKeeper.GetPmtpParams(w.ctx).PmtpPeriodGovernanceRate
+		return &AdminMsg{kind: "UpdatePmtpParams", desc: fmt.Sprintf("adm %s %d %d %d %s", raw, el, st, en, d2s(stored)), shape: "gov.0to1.len0", vb: m.ValidateBasic,
+			run: func(ctx sdk.Context) error { _, err := w.csrv.UpdatePmtpParams(sdk.WrapSDKContext(ctx), m); return err }}
 	}
 	return nil
 }
 
-const nDirected = 13
+const nDirected = 14
 
 // GenLP: a valid UpdateLiquidityProtectionParams (active) with the given maximum and epoch length.
 func (w *World) GenLP(max uint64, epoch uint64) *AdminMsg {
